@@ -22,6 +22,8 @@ const (
 	basicAuthPrefix  = "Basic "   // 用户基础验证前缀
 	digestAuthPrefix = "Digest "  // 摘要认证前缀
 	rtspURLPrefix    = "rtsp://"  // RTSP地址前缀
+
+	maxContentLength = 1024 * 1024 // 消息体(sdp等)的最大长度
 )
 
 // 通用的 RTSP 方法。
@@ -102,10 +104,15 @@ func ReadRequest(r *bufio.Reader) (*Request, error) {
 
 	// 读取Body
 	cl := req.Header.Int(FieldContentLength)
+	if cl > maxContentLength { // 拒绝不合理的长度，避免按对端声明的长度预先分配内存
+		return nil, &badStringError{"Content-Length too large", req.Header.get(FieldContentLength)}
+	}
 	if cl > 0 {
 		// 读取 n 字节的字串Body
 		body := make([]byte, cl)
-		_, err = io.ReadFull(r, body)
+		if _, err = io.ReadFull(r, body); err != nil {
+			return nil, err // Body 不完整
+		}
 		req.Body = string(body)
 	}
 	return req, nil
